@@ -287,6 +287,7 @@ type sim struct {
 	opIdx     int
 	stop      bool
 	closedAll bool
+	rejected  int
 }
 
 //go:norace
@@ -660,9 +661,21 @@ func (s *sim) afterUpdate(when string) {
 			return
 		}
 	}
+	wantList := make([]string, 0, len(want))
 	for e := range want {
+		wantList = append(wantList, e)
+	}
+	sort.Strings(wantList)
+	for _, e := range wantList {
 		if open[e] != 1 {
-			s.vio("C15", "pool-set-mismatch", "missing", fmt.Sprintf("%s: endpoint %s has %d open pools, want 1", when, e, open[e]))
+			msg := fmt.Sprintf("%s: endpoint %s has %d open pools, want 1", when, e, open[e])
+			if s.rejected > 0 && open[e] == 0 {
+				// a pool left behind (closed but still registered) by an earlier
+				// rejected update is what the next RPC to this endpoint would use
+				s.vio("C16", "rejected-update-left-closed-pool", "", msg+fmt.Sprintf(" (after %d rejected updates: RPCs to this endpoint would use a closed pool)", s.rejected))
+				s.stop = false
+			}
+			s.vio("C15", "pool-set-mismatch", "missing", msg)
 			return
 		}
 	}
@@ -783,6 +796,7 @@ func (s *sim) exec(o Op) {
 			return
 		}
 		if err != nil {
+			s.rejected++
 			// rejected: every RPC is routed exactly as before
 			after, ok := s.routingSnapshot()
 			if !ok {
